@@ -3,14 +3,16 @@
 The *statements* come from the properties (Leibniz product, quotient q*b = a, Faa di Bruno lift of
 a derivative table, forms agree, ...).  They are instantiated per type / per function from the
 extraction metadata, so a function the extractor did not find simply has no lemma and is reported as a
-lost anchor by the checker (never silently skipped)."""
+lost anchor by the checker (never silently skipped).
+
+Vector types are handled entry-wise: a DualVec entry (re, eps[i]) is a first-order dual number, a
+Dual2Vec entry (re, v1[i], v1[j], v2[i,j]) and a HyperDualVec entry (re, eps1[i], eps2[j], eps1eps2[i,j])
+are hyper-dual numbers; absent parts read as zero (the Derivative unit proves that this view is all the
+operations depend on)."""
 from speclib import SHAPES, ORDER, TYPE_SHAPE, mul_call, lift_call
 
 # ----------------------------------------------------------------------------------------------
 # derivative tables  T_g(x) = (g0, g1, g2, g3)  in terms of named atoms (DESIGN.md §3.2).
-# 'atoms' : let-bindings shared by the four entries
-# 'hyps'  : algebraic facts about the atoms that the code==table identity may use (each is an
-#           instance of a prelude axiom; the bridge lemma derives it from the property's domain)
 # ----------------------------------------------------------------------------------------------
 TABLES = {
     "recip": dict(atoms=[("r", "recip_r(x)")], g=["r", "-(r * r)", "2real * r * r * r", "-(6real * r * r * r * r)"]),
@@ -45,9 +47,25 @@ TABLES = {
                   g=["atanh_r(x)", "q", "2real * x * q * q", "(6real * x * x + 2real) * q * q * q"]),
 }
 
+VEC_DESC = {
+    "DualVec": dict(shape="d", leaves=["re", "eps_i"], outs=["re", "eps_i"], smap={"re": "re", "eps_i": "eps"}),
+    "Dual2Vec": dict(shape="hd", leaves=["re", "v1_i", "v1_j", "v2_ij"], outs=["re", "v1_i", "v2_ij"],
+                     smap={"re": "re", "v1_i": "eps1", "v1_j": "eps2", "v2_ij": "eps1eps2"}, swap={"v1_j": ("v1_i", {"v1_i": "v1_j", "v1_j": "v1_i"})}),
+    "HyperDualVec": dict(shape="hd", leaves=["re", "eps1_i", "eps2_j", "eps1eps2_ij"], outs=["re", "eps1_i", "eps2_j", "eps1eps2_ij"],
+                         smap={"re": "re", "eps1_i": "eps1", "eps2_j": "eps2", "eps1eps2_ij": "eps1eps2"}),
+}
 
-def parts_of(meta):
-    return [p[0] for p in meta["parts"]]
+
+def describe(meta):
+    ty = meta["unit"]
+    if ty in TYPE_SHAPE:
+        shape = TYPE_SHAPE[ty]
+        parts = SHAPES[shape]
+        assert parts == [p[0] for p in meta["parts"]], (parts, meta["parts"])
+        return dict(shape=shape, leaves=parts, outs=parts, smap={p: p for p in parts})
+    d = VEC_DESC[ty]
+    assert d["leaves"] == meta["leaves"] and d["outs"] == meta["outs"], (d, meta["leaves"], meta["outs"])
+    return d
 
 
 def fn_by_mname(meta):
@@ -67,325 +85,324 @@ class Lemma:
         req = (" requires " + ", ".join(self.requires)) if self.requires else ""
         if canary:
             return f"pub proof fn canary_{self.name}({self.params}) by(nonlinear_arith){req} ensures false {{}}\n"
-        if self.mode == "root":
-            ens = " ensures\n    " + ",\n    ".join(self.ensures)
-            return f"pub proof fn {self.name}({self.params}){req}{ens}\n{{ {self.body} }}\n"
         # one ensures clause per line: a failing clause is attributed to its part by line number
         ens = " ensures\n    " + ",\n    ".join(self.ensures)
+        if self.mode == "root":
+            return f"pub proof fn {self.name}({self.params}){req}{ens}\n{{ {self.body} }}\n"
         return f"pub proof fn {self.name}({self.params}) by(nonlinear_arith){req}{ens}\n{{}}\n"
 
 
-def gen_type_lemmas(meta):
-    """returns list[Lemma] for one scalar type"""
-    ty = meta["unit"]
-    shape = TYPE_SHAPE[ty]
-    parts = SHAPES[shape]
-    assert parts == parts_of(meta), (parts, parts_of(meta))
-    fns = fn_by_mname(meta)
-    order = ORDER[shape]
-    out = []
-    A = [f"a_{p}" for p in parts]
-    B = [f"b_{p}" for p in parts]
-    X = [f"x_{p}" for p in parts]
-    zeros = ["0real"] * (len(parts) - 1)
-
-    def have(m):
-        return f"m_{ty}_{m}" in fns
-
-    def m(mn, part, args):
-        return f"m_{ty}_{mn}_{part}({', '.join(args)})"
-
-    # ---------------- C02: product / quotient / sum / difference / negation ----------------
-    if have("mul_rr"):
-        out.append(Lemma(f"lem_{ty}_mul", reals(A + B), [],
-                         [f"{m('mul_rr', p, A + B)} == {mul_call(shape, p, A, B)}" for p in parts],
-                         ["C02", "C03"], f"&{ty} * &{ty} is the truncated Cauchy (Leibniz) product"))
-    if have("div_rr"):
-        q = [m("div_rr", p, A + B) for p in parts]
-        out.append(Lemma(f"lem_{ty}_div", reals(A + B), ["b_re != 0real", "b_re * recip_r(b_re) == 1real"],
-                         [f"{mul_call(shape, p, q, B)} == a_{p}" for p in parts],
-                         ["C02", "C03"], f"q = &{ty} / &{ty} satisfies q (x) b == a (quotient rule incl. all mixed parts)"))
-    for op, sym in [("add", "+"), ("sub", "-")]:
-        if have(f"{op}_rr"):
-            out.append(Lemma(f"lem_{ty}_{op}", reals(A + B), [],
-                             [f"{m(op + '_rr', p, A + B)} == a_{p} {sym} b_{p}" for p in parts],
-                             ["C02", "C03"], f"&{ty} {sym} &{ty} is part-wise"))
-    if have("neg_r"):
-        out.append(Lemma(f"lem_{ty}_neg", reals(A), [], [f"{m('neg_r', p, A)} == -a_{p}" for p in parts],
-                         ["C02", "C03"], f"-&{ty} is part-wise"))
-    # ---------------- C08: all syntactic forms agree with the canonical form ----------------
-    for op in ["add", "sub", "mul", "div"]:
-        for form in ["oo", "or", "ro"]:
-            if have(f"{op}_{form}") and have(f"{op}_rr"):
-                out.append(Lemma(f"lem_{ty}_{op}_{form}", reals(A + B), [],
-                                 [f"{m(op + '_' + form, p, A + B)} == {m(op + '_rr', p, A + B)}" for p in parts],
-                                 ["C08"], f"form {form} of {op} equals the borrowed form"))
-        if have(f"{op}_assign_oo") and have(f"{op}_rr"):
-            out.append(Lemma(f"lem_{ty}_{op}_assign", reals(A + B), [],
-                             [f"{m(op + '_assign_oo', p, A + B)} == {m(op + '_rr', p, A + B)}" for p in parts],
-                             ["C08", "C07"], f"{op}-assign equals the binary operator"))
-    if have("neg_o") and have("neg_r"):
-        out.append(Lemma(f"lem_{ty}_neg_o", reals(A), [], [f"{m('neg_o', p, A)} == {m('neg_r', p, A)}" for p in parts], ["C08"], "owned negation"))
-    # scalar right-hand operands: equal to the dual op with the scalar lifted to a constant
-    C = ["f"] + zeros
-    for op in ["add", "sub", "mul"]:
-        for form, nm in [("of", op), ("assign_of", op + "-assign")]:
-            mn = f"{op}_{form}"
-            if have(mn) and have(f"{op}_rr"):
-                out.append(Lemma(f"lem_{ty}_{mn}", reals(A + ["f"]), [],
-                                 [f"{m(mn, p, A + ['f'])} == {m(op + '_rr', p, A + C)}" for p in parts],
-                                 ["C08"], f"{nm} with a scalar equals the dual operation with the scalar lifted to a constant"))
-    for mn in ["div_of", "div_assign_of"]:
-        if have(mn) and have("div_rr"):
-            out.append(Lemma(f"lem_{ty}_{mn}", reals(A + ["f"]), ["f != 0real", "f * recip_r(f) == 1real"],
-                             [f"{m(mn, p, A + ['f'])} == {m('div_rr', p, A + C)}" for p in parts],
-                             ["C08"], "division by a scalar equals the dual quotient with the scalar lifted to a constant"))
-    if have("inv") and have("recip"):
-        out.append(Lemma(f"lem_{ty}_inv", reals(A), [], [f"{m('inv', p, A)} == {m('recip', p, A)}" for p in parts], ["C08"], "inv == recip"))
-    if have("from"):
-        out.append(Lemma(f"lem_{ty}_from", "f: real", [], [f"{m('from', p, ['f'])} == {c}" for p, c in zip(parts, C)], ["C08"], "From<F> lifts to a constant"))
-    if have("zero"):
-        out.append(Lemma(f"lem_{ty}_zero", "", [], [f"{m('zero', p, [])} == 0real" for p in parts], ["C08"], "zero"))
-    if have("one"):
-        out.append(Lemma(f"lem_{ty}_one", "", [], [f"{m('one', p, [])} == {c}" for p, c in zip(parts, ['1real'] + zeros)], ["C08"], "one"))
-    if have("mul_add") and have("mul_rr"):
-        Cc = [f"c_{p}" for p in parts]
-        prod = [m("mul_rr", p, A + B) for p in parts]
-        out.append(Lemma(f"lem_{ty}_mul_add", reals(A + B + Cc), [],
-                         [f"{m('mul_add', p, A + B + Cc)} == {pr} + c_{p}" for p, pr in zip(parts, prod)], ["C08", "C03"], "default mul_add = self*a+b"))
-    # ---------------- C01: chain rule and elementary functions ----------------
-    G = ["g0", "g1", "g2", "g3"][: order + 1]
-    if have("chain_rule"):
-        out.append(Lemma(f"lem_{ty}_chain_rule", reals(X + G), [],
-                         [f"{m('chain_rule', p, X + G)} == {lift_call(shape, p, X, G)}" for p in parts],
-                         ["C01", "C03"], "chain rule = Faa di Bruno lift (nested first-order chain rule)"))
-    for g, tab in TABLES.items():
-        if not have(g):
-            continue
-        extra = tab.get("extra_params", [])
-        lets = "let x = x_re; " + "".join(f"let {n} = {e}; " for n, e in tab["atoms"])
-        ens = []
-        for p in parts:
-            ens.append("({ " + lets + f"{m(g, p, X + extra)} == {lift_call(shape, p, X, ['(' + t + ')' for t in tab['g']])}" + " })")
-        out.append(Lemma(f"lem_{ty}_{g}", reals(X + extra), tab.get("hyps", []), ens, ["C01", "C03"],
-                         f"{g}: result jet = lift of the derivative table of {g} at x.re"))
-    return out
-
-
-# ----------------------------------------------------------------------------------------------
-# second group: composite functions, sign functions, powers, spherical Bessel
-# ----------------------------------------------------------------------------------------------
-def tab_g(name, extra=""):
+def tab_g(name):
     t = TABLES[name]
     lets = "".join(f"let {n} = {e}; " for n, e in t["atoms"])
     return lets, ["(" + g + ")" for g in t["g"]]
 
 
-def gen_type_lemmas2(meta):
-    ty = meta["unit"]
-    shape = TYPE_SHAPE[ty]
-    parts = SHAPES[shape]
-    fns = fn_by_mname(meta)
-    order = ORDER[shape]
+class Gen:
+    """helpers bound to one type"""
+
+    def __init__(self, meta):
+        self.meta = meta
+        self.ty = meta["unit"]
+        d = describe(meta)
+        self.shape, self.leaves, self.outs, self.smap = d["shape"], d["leaves"], d["outs"], d["smap"]
+        self.swap = d.get("swap", {})
+        self.fns = fn_by_mname(meta)
+        self.order = ORDER[self.shape]
+        self.sparts = SHAPES[self.shape]
+        self.zeros = ["0real"] * (len(self.leaves) - 1)
+
+    def have(self, m):
+        return f"m_{self.ty}_{m}" in self.fns
+
+    def var(self, prefix):
+        return [f"{prefix}_{l}" for l in self.leaves]
+
+    def m(self, fn_, out, ops, extra=()):
+        """mirror call for out part `out`; ops = list of operand leaf-lists"""
+        args = [a for op in ops for a in op] + list(extra)
+        return f"m_{self.ty}_{fn_}_{out}({', '.join(args)})"
+
+    def mjet(self, fn_, ops, extra=(), prefix=""):
+        """all leaves of the jet returned by the mirror of fn_ (j-variants by index swap)"""
+        res = []
+        for l in self.leaves:
+            if l in self.outs:
+                res.append(self.m(fn_, prefix + l, ops, extra))
+            else:
+                src, perm = self.swap[l]
+                sw = []
+                for op in ops:
+                    d = dict(zip(self.leaves, op))
+                    sw.append([d[perm.get(x, x)] for x in self.leaves])
+                res.append(self.m(fn_, prefix + src, sw, extra))
+        return res
+
+    def smul(self, out, a, b):
+        return mul_call(self.shape, self.smap[out], a, b)
+
+    def smul_jet(self, a, b):
+        return [mul_call(self.shape, self.smap[l], a, b) for l in self.leaves]
+
+    def slift(self, out, x, g):
+        return lift_call(self.shape, self.smap[out], x, g)
+
+    def slift_jet(self, x, g):
+        return [lift_call(self.shape, self.smap[l], x, g) for l in self.leaves]
+
+    def const(self, c):
+        return [c] + self.zeros
+
+
+def gen_type_lemmas(meta):
+    G = Gen(meta)
+    ty, outs = G.ty, G.outs
     out = []
-    X = [f"x_{p}" for p in parts]
-    N = [f"n_{p}" for p in parts]
-    zeros = ["0real"] * (len(parts) - 1)
+    A, B, X, Cv = G.var("a"), G.var("b"), G.var("x"), G.var("c")
+    have, m = G.have, G.m
 
-    def have(m):
-        return f"m_{ty}_{m}" in fns
+    def L(name, params, req, ens, prop, what, **kw):
+        out.append(Lemma(f"lem_{ty}_{name}", params, req, ens, prop, what, **kw))
 
-    def m(mn, part, args):
-        return f"m_{ty}_{mn}_{part}({', '.join(args)})"
+    # ---------------- C02: product / quotient / sum / difference / negation ----------------
+    if have("mul_rr"):
+        L("mul", reals(A + B), [], [f"{m('mul_rr', p, [A, B])} == {G.smul(p, A, B)}" for p in outs],
+          ["C02", "C03", "C07"], f"&{ty} * &{ty} is the truncated Cauchy (Leibniz) product, entry-wise for vector types")
+    if have("div_rr"):
+        q = G.mjet("div_rr", [A, B])
+        L("div", reals(A + B), ["b_re != 0real", "b_re * recip_r(b_re) == 1real"], [f"{G.smul(p, q, B)} == a_{p}" for p in outs],
+          ["C02", "C03", "C07"], f"q = &{ty} / &{ty} satisfies q (x) b == a (quotient rule incl. all mixed parts)")
+    for op, sym in [("add", "+"), ("sub", "-")]:
+        if have(f"{op}_rr"):
+            L(op, reals(A + B), [], [f"{m(op + '_rr', p, [A, B])} == a_{p} {sym} b_{p}" for p in outs], ["C02", "C03", "C07"], f"&{ty} {sym} &{ty} is part-wise")
+    if have("neg_r"):
+        L("neg", reals(A), [], [f"{m('neg_r', p, [A])} == -a_{p}" for p in outs], ["C02", "C03", "C07"], f"-&{ty} is part-wise")
+    # ---------------- C08: all syntactic forms agree with the canonical form ----------------
+    for op in ["add", "sub", "mul", "div"]:
+        for form in ["oo", "or", "ro"]:
+            if have(f"{op}_{form}") and have(f"{op}_rr"):
+                L(f"{op}_{form}", reals(A + B), [], [f"{m(op + '_' + form, p, [A, B])} == {m(op + '_rr', p, [A, B])}" for p in outs],
+                  ["C08", "C07"], f"form {form} of {op} equals the borrowed form")
+        if have(f"{op}_assign_oo") and have(f"{op}_rr"):
+            L(f"{op}_assign", reals(A + B), [], [f"{m(op + '_assign_oo', p, [A, B])} == {m(op + '_rr', p, [A, B])}" for p in outs],
+              ["C08", "C07"], f"{op}-assign equals the binary operator")
+    if have("neg_o") and have("neg_r"):
+        L("neg_o", reals(A), [], [f"{m('neg_o', p, [A])} == {m('neg_r', p, [A])}" for p in outs], ["C08", "C07"], "owned negation")
+    C = G.const("f")
+    for op in ["add", "sub", "mul"]:
+        for form, nm in [("of", op), ("assign_of", op + "-assign")]:
+            mn = f"{op}_{form}"
+            if have(mn) and have(f"{op}_rr"):
+                L(mn, reals(A + ["f"]), [], [f"{m(mn, p, [A], ['f'])} == {m(op + '_rr', p, [A, C])}" for p in outs],
+                  ["C08", "C07"], f"{nm} with a scalar equals the dual operation with the scalar lifted to a constant")
+    for mn in ["div_of", "div_assign_of"]:
+        if have(mn) and have("div_rr"):
+            L(mn, reals(A + ["f"]), ["f != 0real", "f * recip_r(f) == 1real"], [f"{m(mn, p, [A], ['f'])} == {m('div_rr', p, [A, C])}" for p in outs],
+              ["C08", "C07"], "division by a scalar equals the dual quotient with the scalar lifted to a constant")
+    if have("inv") and have("recip"):
+        L("inv", reals(A), [], [f"{m('inv', p, [A])} == {m('recip', p, [A])}" for p in outs], ["C08"], "inv == recip")
+    if have("from"):
+        L("from", "f: real", [], [f"{m('from', p, [], ['f'])} == {c}" for p, c in zip(G.leaves, C) if p in outs], ["C08", "C07"], "From<F> lifts to a constant (absent = zero parts)")
+    if have("zero"):
+        L("zero", "", [], [f"{m('zero', p, [])} == 0real" for p in outs], ["C08", "C07"], "zero")
+    if have("one"):
+        L("one", "", [], [f"{m('one', p, [])} == {c}" for p, c in zip(G.leaves, G.const('1real')) if p in outs], ["C08", "C07"], "one")
+    if have("mul_add") and have("mul_rr"):
+        L("mul_add", reals(A + B + Cv), [], [f"{m('mul_add', p, [A, B, Cv])} == {m('mul_rr', p, [A, B])} + c_{p}" for p in outs], ["C08", "C03"], "default mul_add = self*a+b")
+    # ---------------- C01: chain rule and elementary functions ----------------
+    Gs = ["g0", "g1", "g2", "g3"][: G.order + 1]
+    if have("chain_rule"):
+        L("chain_rule", reals(X + Gs), [], [f"{m('chain_rule', p, [X], Gs)} == {G.slift(p, X, Gs)}" for p in outs],
+          ["C01", "C03", "C07"], "chain rule = Faa di Bruno lift (nested first-order chain rule)")
+    for g, tab in TABLES.items():
+        if not have(g):
+            continue
+        extra = tab.get("extra_params", [])
+        lets = "let x = x_re; " + "".join(f"let {n} = {e}; " for n, e in tab["atoms"])
+        ens = ["({ " + lets + f"{m(g, p, [X], extra)} == {G.slift(p, X, ['(' + t + ')' for t in tab['g']])}" + " })" for p in outs]
+        L(g, reals(X + extra), [], ens, ["C01", "C03", "C07"], f"{g}: result jet = lift of the derivative table of {g} at x.re")
+    return out + gen_type_lemmas2(meta)
 
-    def lift(part, x, g):
-        return lift_call(shape, part, x, g)
 
-    def lifted(x, g):
-        return [lift(p, x, g) for p in parts]
+def gen_type_lemmas2(meta):
+    G = Gen(meta)
+    ty, outs, leaves = G.ty, G.outs, G.leaves
+    out = []
+    X, N = G.var("x"), G.var("n")
+    have, m = G.have, G.m
+
+    def L(name, params, req, ens, prop, what, **kw):
+        out.append(Lemma(f"lem_{ty}_{name}", params, req, ens, prop, what, **kw))
 
     sin_lets, sin_g = tab_g("sin")
     cos_lets, cos_g = tab_g("cos")
-    # tan: Y (x) cos(X) == sin(X)   (defining property of the quotient; no tan table needed)
+    wrapx = lambda e: "({ let x = x_re; " + sin_lets + e + " })"  # noqa: E731
+    # tan: Y (x) cos(X) == sin(X)
     if have("tan"):
-        Y = [m("tan", p, X) for p in parts]
-        ens = ["({ let x = x_re; " + sin_lets + f"{mul_call(shape, p, Y, lifted(X, cos_g))} == {lift(p, X, sin_g)}" + " })" for p in parts]
-        out.append(Lemma(f"lem_{ty}_tan", reals(X), ["cos_r(x_re) != 0real", "cos_r(x_re) * recip_r(cos_r(x_re)) == 1real"], ens,
-                         ["C01", "C03"], "tan: Y (x) cos(X) == sin(X) as jets (Y = sin X / cos X)"))
+        Y = G.mjet("tan", [X])
+        Cj = G.slift_jet(X, cos_g)
+        L("tan", reals(X), ["cos_r(x_re) != 0real", "cos_r(x_re) * recip_r(cos_r(x_re)) == 1real"],
+          [wrapx(f"{G.smul(p, Y, Cj)} == {G.slift(p, X, sin_g)}") for p in outs], ["C01", "C03"], "tan: Y (x) cos(X) == sin(X) as jets (Y = sin X / cos X)")
     if have("tanh"):
         sl, sg = tab_g("sinh")
         cl, cg = tab_g("cosh")
-        Y = [m("tanh", p, X) for p in parts]
-        ens = ["({ let x = x_re; " + sl + f"{mul_call(shape, p, Y, lifted(X, cg))} == {lift(p, X, sg)}" + " })" for p in parts]
-        out.append(Lemma(f"lem_{ty}_tanh", reals(X), ["cosh_r(x_re) != 0real", "cosh_r(x_re) * recip_r(cosh_r(x_re)) == 1real"], ens,
-                         ["C01", "C03"], "tanh: Y (x) cosh(X) == sinh(X) as jets"))
+        Y = G.mjet("tanh", [X])
+        Cj = G.slift_jet(X, cg)
+        L("tanh", reals(X), ["cosh_r(x_re) != 0real", "cosh_r(x_re) * recip_r(cosh_r(x_re)) == 1real"],
+          ["({ let x = x_re; " + sl + f"{G.smul(p, Y, Cj)} == {G.slift(p, X, sg)}" + " })" for p in outs], ["C01", "C03"], "tanh: Y (x) cosh(X) == sinh(X) as jets")
     if have("sin_cos"):
         ens = []
-        for p in parts:
-            ens.append("({ let x = x_re; " + sin_lets + f"{m('sin_cos', '0_' + p, X)} == {lift(p, X, sin_g)}" + " })")
-            ens.append("({ let x = x_re; " + sin_lets + f"{m('sin_cos', '1_' + p, X)} == {lift(p, X, cos_g)}" + " })")
-        out.append(Lemma(f"lem_{ty}_sin_cos", reals(X), [], ens, ["C01", "C03"], "sin_cos = (sin, cos) jets"))
-    # abs / signum / abs_sub by the sign of the real part
+        for p in outs:
+            ens.append(wrapx(f"{m('sin_cos', '0_' + p, [X])} == {G.slift(p, X, sin_g)}"))
+            ens.append(wrapx(f"{m('sin_cos', '1_' + p, [X])} == {G.slift(p, X, cos_g)}"))
+        L("sin_cos", reals(X), [], ens, ["C01", "C03"], "sin_cos = (sin, cos) jets")
     sign_h = ["x_re != 0real", "x_re > 0real ==> is_positive_r(x_re)", "x_re < 0real ==> !is_positive_r(x_re)"]
     if have("abs"):
-        ens = [f"x_re > 0real ==> {m('abs', p, X)} == x_{p}" for p in parts] + [f"x_re < 0real ==> {m('abs', p, X)} == -x_{p}" for p in parts]
-        out.append(Lemma(f"lem_{ty}_abs", reals(X), sign_h, ens, ["C01", "C06", "C03"], "abs = +-X by the sign of the real part"))
+        ens = [f"x_re > 0real ==> {m('abs', p, [X])} == x_{p}" for p in outs] + [f"x_re < 0real ==> {m('abs', p, [X])} == -x_{p}" for p in outs]
+        L("abs", reals(X), sign_h, ens, ["C01", "C06", "C03"], "abs = +-X by the sign of the real part")
     if have("signum"):
-        one = ["1real"] + zeros
-        ens = [f"x_re > 0real ==> {m('signum', p, X)} == {c}" for p, c in zip(parts, one)] + \
-              [f"x_re < 0real ==> {m('signum', p, X)} == -{c}" for p, c in zip(parts, one)]
-        out.append(Lemma(f"lem_{ty}_signum", reals(X), sign_h, ens, ["C01", "C06", "C03"], "signum = +-1 (constant) by the sign of the real part"))
+        one = dict(zip(leaves, G.const("1real")))
+        ens = [f"x_re > 0real ==> {m('signum', p, [X])} == {one[p]}" for p in outs] + [f"x_re < 0real ==> {m('signum', p, [X])} == -{one[p]}" for p in outs]
+        L("signum", reals(X), sign_h, ens, ["C01", "C06", "C03"], "signum = +-1 (constant) by the sign of the real part")
     if have("abs_sub"):
-        A = [f"a_{p}" for p in parts]
-        B = [f"b_{p}" for p in parts]
-        ens = [f"a_re > b_re ==> {m('abs_sub', p, A + B)} == a_{p} - b_{p}" for p in parts] + \
-              [f"a_re <= b_re ==> {m('abs_sub', p, A + B)} == 0real" for p in parts]
-        out.append(Lemma(f"lem_{ty}_abs_sub", reals(A + B), [], ens, ["C01", "C06"], "abs_sub = positive difference decided by the real parts"))
+        A, B = G.var("a"), G.var("b")
+        ens = [f"a_re > b_re ==> {m('abs_sub', p, [A, B])} == a_{p} - b_{p}" for p in outs] + [f"a_re <= b_re ==> {m('abs_sub', p, [A, B])} == 0real" for p in outs]
+        L("abs_sub", reals(A + B), [], ens, ["C01", "C06"], "abs_sub = positive difference decided by the real parts")
     # atan2(S, O): first-order parts satisfy  y1 * (o^2 + s^2) == o * s1 - s * o1  on the whole domain incl. both axes
     if have("atan2"):
-        Sx_ = [f"s_{p}" for p in parts]
-        Ox_ = [f"o_{p}" for p in parts]
-        first = [p for p in parts if p in ("eps", "v1", "eps1", "eps2", "eps3")]
+        Sx_, Ox_ = G.var("s"), G.var("o")
+        first = [p for p in outs if G.smap[p] in ("eps", "v1", "eps1", "eps2", "eps3")]
         common = ["s_re * recip_r(s_re) == 1real || s_re == 0real", "o_re * recip_r(o_re) == 1real || o_re == 0real",
                   "({ let q = s_re * recip_r(o_re); (1real + q * q) * recip_r(1real + q * q) == 1real })",
                   "({ let q = o_re * recip_r(s_re); (1real + q * q) * recip_r(1real + q * q) == 1real })",
                   "({ let q = s_re * (1real / o_re); (1real + q * q) * recip_r(1real + q * q) == 1real }) || o_re == 0real",
                   "({ let q = o_re * (1real / s_re); (1real + q * q) * recip_r(1real + q * q) == 1real }) || s_re == 0real"]
         for cname, hy in [("x_dominant", ["!(abs_r(o_re) < abs_r(s_re))", "o_re != 0real"]), ("y_dominant", ["abs_r(o_re) < abs_r(s_re)", "s_re != 0real"])]:
-            ens = [f"{m('atan2', p, Sx_ + Ox_)} * (o_re * o_re + s_re * s_re) == o_re * s_{p} - s_re * o_{p}" for p in first]
-            ens.append(f"{m('atan2', 're', Sx_ + Ox_)} == atan2_r(s_re, o_re)")
-            out.append(Lemma(f"lem_{ty}_atan2_{cname}", reals(Sx_ + Ox_), hy + common, ens, ["C01", "C10", "C03"],
-                             f"atan2: real part = atan2 of the real parts; first-order parts y' (o^2+s^2) = o s' - s o' ({cname} half-plane, axes included)"))
+            ens = [f"{m('atan2', p, [Sx_, Ox_])} * (o_re * o_re + s_re * s_re) == o_re * s_{p} - s_re * o_{p}" for p in first]
+            ens.append(f"{m('atan2', 're', [Sx_, Ox_])} == atan2_r(s_re, o_re)")
+            L(f"atan2_{cname}", reals(Sx_ + Ox_), hy + common, ens, ["C01", "C10", "C03"],
+              f"atan2: real part = atan2 of the real parts; first-order parts y' (o^2+s^2) = o s' - s o' ({cname} half-plane, axes included)")
     # ---------------- C09 powers ----------------
     if have("powi"):
         P = lambda k: f"powi_r(x_re, exp - {k})"  # noqa: E731
         nr = "(exp as real)"
         g = [P(0), f"{nr} * {P(1)}", f"{nr} * ({nr} - 1real) * {P(2)}", f"{nr} * ({nr} - 1real) * ({nr} - 2real) * {P(3)}"]
-        ens = [f"{m('powi', p, X + ['exp'])} == {lift(p, X, ['(' + t + ')' for t in g])}" for p in parts]
+        ens = [f"{m('powi', p, [X], ['exp'])} == {G.slift(p, X, ['(' + t + ')' for t in g])}" for p in outs]
         base = ["powi_r(x_re, 0) == 1real", "powi_r(x_re, 1) == x_re", "powi_r(x_re, 2) == x_re * x_re"]
-        gen = ["exp != 0", "exp != 1", "exp != 2",
-               f"{P(0)} == {P(3)} * x_re * x_re * x_re", f"{P(1)} == {P(3)} * x_re * x_re", f"{P(2)} == {P(3)} * x_re"]
+        gen = ["exp != 0", "exp != 1", "exp != 2", f"{P(0)} == {P(3)} * x_re * x_re * x_re", f"{P(1)} == {P(3)} * x_re * x_re", f"{P(2)} == {P(3)} * x_re"]
         what = "powi: every part = lift of the generalized power rule n!/(n-k)! x^(n-k)"
         for cname, hy in [("exp0", ["exp == 0"] + base), ("exp1", ["exp == 1"] + base), ("exp2", ["exp == 2"] + base), ("general", gen)]:
-            out.append(Lemma(f"lem_{ty}_powi_{cname}", reals(X) + ", exp: int", hy, ens, ["C09", "C02", "C10", "C03"], what + f" (case {cname})"))
+            L(f"powi_{cname}", reals(X) + ", exp: int", hy, ens, ["C09", "C02", "C10", "C03"], what + f" (case {cname})")
     if have("powf"):
         F = lambda k: f"powf_r(x_re, n - {k}real)"  # noqa: E731
         g = [F(0), f"n * {F(1)}", f"n * (n - 1real) * {F(2)}", f"n * (n - 1real) * (n - 2real) * {F(3)}"]
-        ens = [f"{m('powf', p, X + ['n'])} == {lift(p, X, ['(' + t + ')' for t in g])}" for p in parts]
+        ens = [f"{m('powf', p, [X], ['n'])} == {G.slift(p, X, ['(' + t + ')' for t in g])}" for p in outs]
         base = ["eps_r() > 0real", "powf_r(x_re, 0real) == 1real", "powf_r(x_re, 1real) == x_re", "powf_r(x_re, 2real) == x_re * x_re"]
         gen = ["n != 0real", "n != 1real", "!(abs_r(n - 2real) < eps_r())"]
         what = "powf: every part = lift of n(n-1)..x^(n-k)"
-        for cname, hy in [("n0", ["n == 0real"] + base), ("n1", ["n == 1real"] + base),
-                          ("near2", ["abs_r(n - 2real) < eps_r()", "n == 2real"] + base), ("general", gen)]:
-            out.append(Lemma(f"lem_{ty}_powf_{cname}", reals(X + ["n"]), hy, ens, ["C09", "C10", "C03"], what + f" (case {cname})"))
+        for cname, hy in [("n0", ["n == 0real"] + base), ("n1", ["n == 1real"] + base), ("near2", ["abs_r(n - 2real) < eps_r()", "n == 2real"] + base), ("general", gen)]:
+            L(f"powf_{cname}", reals(X + ["n"]), hy, ens, ["C09", "C10", "C03"], what + f" (case {cname})")
     if have("powd"):
         ln_lets, ln_g = tab_g("ln")
-        Z = [mul_call(shape, p, lifted(X, ln_g), N) for p in parts]
-        ens = ["({ let x = x_re; " + ln_lets + "let z = " + Z[0] + "; let e = exp_r(z); " +
-               f"{m('powd', p, X + N)} == {lift(p, Z, ['e', 'e', 'e', 'e'])}" + " })" for p in parts]
-        out.append(Lemma(f"lem_{ty}_powd", reals(X + N), [], ens, ["C09", "C03"], "powd = exp(N (x) ln X) as jets (logarithmic derivative w.r.t. a dual exponent)"))
+        Z = G.smul_jet(G.slift_jet(X, ln_g), N)
+        ens = ["({ let x = x_re; " + ln_lets + "let z = " + Z[0] + "; let e = exp_r(z); " + f"{m('powd', p, [X, N])} == {G.slift(p, Z, ['e', 'e', 'e', 'e'])}" + " })" for p in outs]
+        L("powd", reals(X + N), [], ens, ["C09", "C03"], "powd = exp(N (x) ln X) as jets (logarithmic derivative w.r.t. a dual exponent)")
     # ---------------- C15 spherical Bessel ----------------
-    # closed-form branch: composition proofs (default mode) from the per-operation lemmas -- the C03 induction step
-    # instantiated on the program text of each function.  J = (mirror-side parts, spec-side parts).
     zero_h = ["x_re == 0real", "eps_r() > 0real"]
-    S = lifted(X, sin_g)
-    Cc = lifted(X, cos_g)
-    calls = []
+    S = G.slift_jet(X, sin_g)
+    Cc = G.slift_jet(X, cos_g)
+    Sx = [wrapx(e) for e in S]
+    Cx = [wrapx(e) for e in Cc]
+    c3 = G.const("3real")
+    state = dict(calls=[], ctr=0)
 
-    def mm(fn_, args):
-        return [m(fn_, p, args) for p in parts]
+    def swapped(op):
+        perm = {}
+        for _, (_, pm) in G.swap.items():
+            perm.update(pm)
+        d = dict(zip(leaves, op))
+        return [d[perm.get(x, x)] for x in leaves]
 
-    def call(lem, args):
-        calls.append(f"nl::lem_{ty}_{lem}({', '.join(args)});")
-
-    ctr = [0]
+    def call(lem, ops, extra=()):
+        flat = [a for op in ops for a in op] + list(extra)
+        state["calls"].append(f"nl::lem_{ty}_{lem}({', '.join(flat)});")
+        if G.swap:
+            # the j-variant of a symmetric first-order part is the same lemma with i and j exchanged
+            flat = [a for op in ops for a in swapped(op)] + list(extra)
+            state["calls"].append(f"nl::lem_{ty}_{lem}({', '.join(flat)});")
 
     def bind(exprs):
         """ghost let-bindings keep the proof context a DAG (inlining substitutes argument text)"""
-        ctr[0] += 1
-        names = [f"v{ctr[0]}_{p}" for p in parts]
+        state["ctr"] += 1
+        names = [f"v{state['ctr']}_{l}" for l in leaves]
         for n_, e in zip(names, exprs):
-            calls.append(f"let {n_} = {e};")
+            state["calls"].append(f"let {n_} = {e};")
         return names
 
     def binop(op, form, a, b):
-        r = bind(mm(f"{op}_{form}", a + b))
+        r = bind(G.mjet(f"{op}_{form}", [a, b]))
         if form != "rr":
-            call(f"{op}_{form}", a + b)
-        call(op, a + b)
+            call(f"{op}_{form}", [a, b])
+        call(op, [a, b])
         return r
 
-    lets = "let x = x_re; " + sin_lets
-    wrap = lambda e: "({ " + lets + e + " })"  # noqa: E731
-    Sx = [wrap(e) for e in S]
-    Cx = [wrap(e) for e in Cc]
-    c3 = ["3real"] + zeros
+    idx = {l: i for i, l in enumerate(leaves)}
     if have("sph_j0") and have("sin") and have("div_or"):
-        calls = []
-        Sm = bind(mm("sin", X))
-        call("sin", X)
+        state["calls"] = []
+        Sm = bind(G.mjet("sin", [X]))
+        call("sin", [X])
         binop("div", "or", Sm, X)
-        Y = mm("sph_j0", X)
-        ens = [f"{mul_call(shape, p, Y, X)} == {Sx[i]}" for i, p in enumerate(parts)]
+        Y = G.mjet("sph_j0", [X])
+        ens = [f"{G.smul(p, Y, X)} == {Sx[idx[p]]}" for p in outs]
         hy = ["abs_r(x_re) >= eps_r()", "eps_r() > 0real", "x_re != 0real", "x_re * recip_r(x_re) == 1real"]
-        out.append(Lemma(f"lem_{ty}_sph_j0_closed", reals(X), hy, ens, ["C15", "C03"],
-                         "sph_j0 for |x| >= eps (both signs): Y (x) X == sin X", body=" ".join(calls), mode="root"))
+        L("sph_j0_closed", reals(X), hy, ens, ["C15", "C03"], "sph_j0 for |x| >= eps (both signs): Y (x) X == sin X", body=" ".join(state["calls"]), mode="root")
     if have("sph_j0"):
-        Y = mm("sph_j0", X)
         tabz = ["1real", "0real", "(-(1real / 3real))", "0real"]
-        ens = [f"{Y[i]} == {lift(p, X, tabz)}" for i, p in enumerate(parts)]
-        out.append(Lemma(f"lem_{ty}_sph_j0_zero", reals(X), zero_h, ens, ["C15", "C10"], "sph_j0 at x = 0: lift of the Maclaurin table (1, 0, -1/3, 0)"))
+        L("sph_j0_zero", reals(X), zero_h, [f"{m('sph_j0', p, [X])} == {G.slift(p, X, tabz)}" for p in outs], ["C15", "C10"], "sph_j0 at x = 0: lift of the Maclaurin table (1, 0, -1/3, 0)")
     if have("sph_j1") and have("sin_cos") and have("div_oo"):
-        calls = []
-        Sm = bind([m("sin_cos", "0_" + p, X) for p in parts])
-        Cm = bind([m("sin_cos", "1_" + p, X) for p in parts])
-        call("sin_cos", X)
+        state["calls"] = []
+        Sm = bind(G.mjet("sin_cos", [X], prefix="0_"))
+        Cm = bind(G.mjet("sin_cos", [X], prefix="1_"))
+        call("sin_cos", [X])
         XC = binop("mul", "ro", X, Cm)
         D = binop("sub", "oo", Sm, XC)
         XXm = binop("mul", "rr", X, X)
         binop("div", "oo", D, XXm)
-        Y = mm("sph_j1", X)
-        XXs = [mul_call(shape, p, X, X) for p in parts]
-        XCs = [mul_call(shape, p, X, Cx) for p in parts]
-        ens = [f"{mul_call(shape, p, Y, XXs)} == {Sx[i]} - {XCs[i]}" for i, p in enumerate(parts)]
+        Y = G.mjet("sph_j1", [X])
+        XXs = G.smul_jet(X, X)
+        XCs = G.smul_jet(X, Cx)
+        ens = [f"{G.smul(p, Y, XXs)} == {Sx[idx[p]]} - {XCs[idx[p]]}" for p in outs]
         hy = ["abs_r(x_re) >= eps_r()", "eps_r() > 0real", "x_re * x_re != 0real", "(x_re * x_re) * recip_r(x_re * x_re) == 1real"]
-        out.append(Lemma(f"lem_{ty}_sph_j1_closed", reals(X), hy, ens, ["C15", "C03"],
-                         "sph_j1 for |x| >= eps: Y (x) (X (x) X) == sin X - X (x) cos X", body=" ".join(calls), mode="root"))
+        L("sph_j1_closed", reals(X), hy, ens, ["C15", "C03"], "sph_j1 for |x| >= eps: Y (x) (X (x) X) == sin X - X (x) cos X", body=" ".join(state["calls"]), mode="root")
     if have("sph_j1"):
-        Y = mm("sph_j1", X)
         tabz = ["0real", "(1real / 3real)", "0real", "(-(1real / 5real))"]
-        ens = [f"{Y[i]} == {lift(p, X, tabz)}" for i, p in enumerate(parts)]
-        out.append(Lemma(f"lem_{ty}_sph_j1_zero", reals(X), zero_h, ens, ["C15", "C10"], "sph_j1 at x = 0: lift of the Maclaurin table (0, 1/3, 0, -1/5)"))
+        L("sph_j1_zero", reals(X), zero_h, [f"{m('sph_j1', p, [X])} == {G.slift(p, X, tabz)}" for p in outs], ["C15", "C10"], "sph_j1 at x = 0: lift of the Maclaurin table (0, 1/3, 0, -1/5)")
     if have("sph_j2") and have("sin_cos") and have("div_oo") and have("mul_of"):
-        calls = []
-        Sm = bind([m("sin_cos", "0_" + p, X) for p in parts])
-        Cm = bind([m("sin_cos", "1_" + p, X) for p in parts])
-        call("sin_cos", X)
+        state["calls"] = []
+        Sm = bind(G.mjet("sin_cos", [X], prefix="0_"))
+        Cm = bind(G.mjet("sin_cos", [X], prefix="1_"))
+        call("sin_cos", [X])
         XXm = binop("mul", "rr", X, X)
         XC = binop("mul", "ro", X, Cm)
         D1 = binop("sub", "ro", Sm, XC)
-        D2 = bind(mm("mul_of", D1 + ["3real"]))
-        call("mul_of", D1 + ["3real"])
-        call("mul", D1 + c3)
+        D2 = bind(G.mjet("mul_of", [D1], ["3real"]))
+        call("mul_of", [D1], ["3real"])
+        call("mul", [D1, c3])
         XXS = binop("mul", "ro", XXm, Sm)
         Nn = binop("sub", "oo", D2, XXS)
         XXX = binop("mul", "or", XXm, X)
         binop("div", "oo", Nn, XXX)
-        Y = mm("sph_j2", X)
-        XXs = [mul_call(shape, p, X, X) for p in parts]
-        XXXs = [mul_call(shape, p, XXs, X) for p in parts]
-        XCs = [mul_call(shape, p, X, Cx) for p in parts]
-        D1s = [f"({Sx[i]} - {XCs[i]})" for i in range(len(parts))]
-        D2s = [mul_call(shape, p, D1s, c3) for p in parts]
-        XXSs = [mul_call(shape, p, XXs, Sx) for p in parts]
-        ens = [f"{mul_call(shape, p, Y, XXXs)} == {D2s[i]} - {XXSs[i]}" for i, p in enumerate(parts)]
-        hy = ["abs_r(x_re) >= eps_r()", "eps_r() > 0real", "(x_re * x_re) * x_re != 0real",
-              "((x_re * x_re) * x_re) * recip_r((x_re * x_re) * x_re) == 1real"]
-        out.append(Lemma(f"lem_{ty}_sph_j2_closed", reals(X), hy, ens, ["C15", "C03"],
-                         "sph_j2 for |x| >= eps: Y (x) X^3 == 3 (sin X - X cos X) - X^2 sin X", body=" ".join(calls), mode="root"))
+        Y = G.mjet("sph_j2", [X])
+        XXs = G.smul_jet(X, X)
+        XXXs = G.smul_jet(XXs, X)
+        XCs = G.smul_jet(X, Cx)
+        D1s = [f"({Sx[i]} - {XCs[i]})" for i in range(len(leaves))]
+        D2s = G.smul_jet(D1s, c3)
+        XXSs = G.smul_jet(XXs, Sx)
+        ens = [f"{G.smul(p, Y, XXXs)} == {D2s[idx[p]]} - {XXSs[idx[p]]}" for p in outs]
+        hy = ["abs_r(x_re) >= eps_r()", "eps_r() > 0real", "(x_re * x_re) * x_re != 0real", "((x_re * x_re) * x_re) * recip_r((x_re * x_re) * x_re) == 1real"]
+        L("sph_j2_closed", reals(X), hy, ens, ["C15", "C03"], "sph_j2 for |x| >= eps: Y (x) X^3 == 3 (sin X - X cos X) - X^2 sin X", body=" ".join(state["calls"]), mode="root")
     if have("sph_j2"):
-        Y = mm("sph_j2", X)
         tabz = ["0real", "0real", "(2real / 15real)", "0real"]
-        ens = [f"{Y[i]} == {lift(p, X, tabz)}" for i, p in enumerate(parts)]
-        out.append(Lemma(f"lem_{ty}_sph_j2_zero", reals(X), zero_h, ens, ["C15", "C10"], "sph_j2 at x = 0: lift of the Maclaurin table (0, 0, 2/15, 0)"))
+        L("sph_j2_zero", reals(X), zero_h, [f"{m('sph_j2', p, [X])} == {G.slift(p, X, tabz)}" for p in outs], ["C15", "C10"], "sph_j2 at x = 0: lift of the Maclaurin table (0, 0, 2/15, 0)")
     return out
